@@ -1,6 +1,6 @@
 // C09 — if, for and set have their defined control-flow meaning.
 //
-// Bounded-exhaustive enumeration of six families of programs, each rendered on a fresh engine of
+// Bounded-exhaustive enumeration of seven families of programs, each rendered on a fresh engine of
 // the real implementation and compared with a small reference interpreter transcribed from the
 // property statement:
 //
@@ -19,6 +19,12 @@
 //	F  re-entrant loops: the same for node active several times at once (a template including
 //	   itself from its for body, a macro calling itself through _self, a function rendering the
 //	   template again), all seven counters printed before and after the inner activation -> fam_f.go
+//	G  body layouts of one loop: every list of set / do statements (not mentioning loop), reads of
+//	   loop.* and ifs around them up to a token bound — reads before, between and after the other
+//	   statements, at the top level and nested — times where in a statement the read sits -> fam_g.go
+//
+// Family C is printed a second time with loop.* read only at the end of every loop-context body
+// (keys CL/…, and CD/… with the sets in the do form)                       -> fam_c.go
 package main
 
 import (
@@ -88,37 +94,53 @@ func main() {
 	vlib.Main(vlib.Spec{
 		ID:    "C09",
 		Level: "exploration",
-		Rule: "every program of six generated families inside the stated bounds is rendered on a fresh engine and compared with a reference interpreter " +
+		Rule: "every program of seven generated families inside the stated bounds is rendered on a fresh engine and compared with a reference interpreter " +
 			"written from the property statement: (A) if/elseif/else chains over every value class as context value and as literal; (B) one for loop " +
 			"(value or key,value header, with/without else, top level / inside an outer loop / over a variable assigned by set) over every list, string " +
 			"and range of the bound, printing index, index0, revindex, revindex0, first, last, length, key and value at every position; (C) every statement " +
 			"tree over {set, if, if/else, if/elseif[/else], for, for/else} up to the size bound with a full state probe at the start of every body and after every " +
-			"statement; (D) every chain of assignments up to the length bound as `set` and as `do name = expr`; (E) a variable first assigned below every chain of " +
+			"statement, and the same trees of the smaller layers once more with loop.* printed only after the last statement of every body inside a loop (sets as set and as do name = expr), so that sets, ifs and inner loops precede the reads; (D) every chain of assignments up to the length bound as `set` and as `do name = expr`; (E) a variable first assigned below every chain of " +
 			"taken if / else / elseif branches, loop bodies and for-else branches up to the depth bound, read after each enclosing construct and in later iterations; " +
 				"(F) re-entrant loops: a loop body that reaches its own for node again (include of the same template, include ... only, recursive macro via _self, a registered function that renders the template again; directly or through a second identical template/macro) " +
-				"over per-level lists of every length with a depth guard and over every tree of nested lists of the bound, printing all seven counters, key and value before and after the inner activation, three renders per case on one engine. Non-trivial = A: the chain has at least two " +
+				"over per-level lists of every length with a depth guard and over every tree of nested lists of the bound, printing all seven counters, key and value before and after the inner activation, three renders per case on one engine; " +
+				"(G) body layouts of one loop: every list of tokens up to the bound over {set acc = acc ~ v, do cnt = cnt + 1, read of loop.*, if 1 {...}, if 0 else {...}} x the place of the read in its statement " +
+				"(all seven counters, one counter, if condition, ?:, set value, inner loop header, include-with value, macro argument) x sequence x placement, the set variables printed after endfor. Non-trivial = A: the chain has at least two " +
 			"alternatives (elseif or else); B: the sequence has at least two elements, or is empty with an else branch; C: the reference execution enters a " +
 			"loop body or selects among at least two branches; D: a later assignment or print reads an earlier assignment; E: always (every read follows the assignment across a construct boundary); " +
-				"F: a loop body is entered while an iteration of a loop of an outer level is still being rendered",
+				"F: a loop body is entered while an iteration of a loop of an outer level is still being rendered; G: the body has at least one read of loop.* and at least one set/do",
 		Assumptions: []string{
 			"bounds: see coverage.bounds; programs larger than the size bound, lists longer than the length bound and ranges outside the grid are not explored",
 			"not demanded (statement silent): loop.* and loop variables after endfor and inside a for-else branch; range() whose step sign contradicts end-start, one-argument range; " +
 				"undefined variables as conditions; maps as sequences (except the empty map, which has nothing to iterate); pointers and NaN as conditions; combining characters / invalid UTF-8 in strings",
 			"printing of integers and strings, the ~ operator on them, + on integers and the ?: used by the family-C probe are trusted (property C08)",
-			"family F trusts include ... with {...} [only], macro parameters, _self.macro(...) calls and function calls to hand the stated values to the next level (properties about includes/macros/functions); integer d + 1 and d < N (C08)",
+			"family F trusts include ... with {...} [only], macro parameters, _self.macro(...) calls and function calls to hand the stated values to the next level (properties about includes/macros/functions); integer d + 1 and d < N (C08); family G trusts the same for its include-with / macro-argument read forms and range(i, n) with i <= n for its inner-loop-header form",
 			"a `do name = expr` that the parser rejects is a don't-care; one that is accepted must assign like set",
 		},
 		QuickDeadline:    150,
 		ThoroughDeadline: 840,
 		Run: func(t *vlib.T) {
-			runA(t)
-			runB(t)
-			runG(t)
-			runD(t)
-			runE(t)
-			runF(t)
-			runCLate(t)
-			runC(t)
+			// development aid for attributing a detection: C09_FAMILIES=G,CL runs only those families
+			// (never set by run.sh; unset = everything)
+			only := os.Getenv("C09_FAMILIES")
+			on := func(f string) bool {
+				if only == "" {
+					return true
+				}
+				for _, x := range strings.Split(only, ",") {
+					if x == f {
+						return true
+					}
+				}
+				return false
+			}
+			for _, fam := range []struct {
+				id  string
+				run func(*vlib.T)
+			}{{"A", runA}, {"B", runB}, {"G", runG}, {"D", runD}, {"E", runE}, {"F", runF}, {"CL", runCLate}, {"C", runC}} {
+				if on(fam.id) {
+					fam.run(t)
+				}
+			}
 		},
 		Extra: func(tier string, cov map[string]interface{}) {
 			cov["bounds"] = boundsDoc(tier)
